@@ -48,7 +48,21 @@ def check(ctx):
                consequence=f"{m} of several polygons applies another operation to the later operands or loses the name")
         fc = P.methods[f"from_{m}"]
         rets = [norm(n.value) for n in own_nodes(fc.node) if isinstance(n, ast.Return)]
-        ctx.ob("R18.1", f"Polygon.from_{m} -> polygon.{m}(*rest)", rets == [f"polygon.{m}(*rest)"], detail=rets, where=fc.fq,
+        # structure (local names free): f, *r = items ; p = cls(..., points=f, ...) ; return p.<m>(*r)
+        okc = False
+        rv = [n.value for n in own_nodes(fc.node) if isinstance(n, ast.Return)]
+        if len(rv) == 1 and isinstance(rv[0], ast.Call) and isinstance(rv[0].func, ast.Attribute) and rv[0].func.attr == m \
+                and isinstance(rv[0].func.value, ast.Name) and len(rv[0].args) == 1 and isinstance(rv[0].args[0], ast.Starred) \
+                and isinstance(rv[0].args[0].value, ast.Name) and not rv[0].keywords:
+            pn, rn = rv[0].func.value.id, rv[0].args[0].value.id
+            asg_ = assignments(fc.node)
+            pdef = [v for _, v in asg_.get(pn, []) if v is not None]
+            un = [n for n in own_nodes(fc.node) if isinstance(n, ast.Assign) and isinstance(n.targets[0], ast.Tuple) and len(n.targets[0].elts) == 2
+                  and isinstance(n.targets[0].elts[1], ast.Starred) and norm(n.targets[0].elts[1].value) == rn and norm(n.value) == "items"]
+            if len(pdef) == 1 and isinstance(pdef[0], ast.Call) and norm(pdef[0].func) == "cls" and len(un) == 1:
+                kwp = {k.arg: norm(k.value) for k in pdef[0].keywords}
+                okc = kwp.get("points") == norm(un[0].targets[0].elts[0]) and kwp.get("name") == "name" and kwp.get("mesh") == "mesh"
+        ctx.ob("R18.1", f"Polygon.from_{m} -> polygon.{m}(*rest)", okc, detail=rets, where=fc.fq,
                construct=f"from_{m}", loc=loc(fc, fc.node), message=f"from_{m} returns {rets}", consequence="constructor applies another operation")
     fj = P.methods["_join_via"]
     # the operation whitelist: the tuple of strings tested with `operation not in <name>`
@@ -80,9 +94,13 @@ def check(ctx):
         if cls is D:
             # if inplace: device = self else: device = self.copy(with_mesh=False)
             al = [n for n in own_nodes(fn) if isinstance(n, ast.If) and norm(n.test) == "inplace"]
-            ok_alias = len(al) == 1 and any(norm(x) == "device = self" for x in al[0].body) and \
-                any(norm(x).startswith("device = self.copy(") for x in al[0].orelse)
-            name = "device"
+            # <alias> = self / <alias> = self.copy(...) in the two branches, whatever the alias is called
+            t1 = [x.targets[0].id for x in (al[0].body if al else []) if isinstance(x, ast.Assign) and isinstance(x.targets[0], ast.Name)
+                  and norm(x.value) == "self"]
+            t2 = [x.targets[0].id for x in (al[0].orelse if al else []) if isinstance(x, ast.Assign) and isinstance(x.targets[0], ast.Name)
+                  and norm(x.value).startswith("self.copy(")]
+            ok_alias = len(al) == 1 and len(t1) == 1 and t1 == t2
+            name = t1[0] if t1 else "?"
         else:
             ok_alias = len(alias) == 1 and norm(alias[0].value.orelse) == "self.copy()"
             name = norm(alias[0].targets[0]) if alias else "?"
